@@ -8,6 +8,7 @@ gpytorch/functions/_log_normal_cdf.py and the likelihood files (`Gen.Quadrature`
 import GPVerif.Bridge.Quadrature
 import GPVerif.Bridge.GaussMoments
 import GPVerif.Bridge.Probit
+import GPVerif.Bridge.QuadMoments
 import Mathlib.MeasureTheory.Measure.Dirac
 import Mathlib.Tactic.Push
 
@@ -66,10 +67,14 @@ theorem weights_normalised (rule : List (ℝ × ℝ)) (D : ℕ) (hD : 0 < D) (H 
   simp only [eval_C, integral_const, smul_eq_mul, mul_one] at h
   simpa [ghApply, measureReal_def] using h
 
-/-- **gh_nodes_partial** — that numpy's `hermgauss(N)` satisfies `ExactOnHermiteWeight · (2N)` is a fact
-about an external table of irrational nodes: checked numerically by the correspondence (exact rational
-moments vs the float32-stored nodes), not proved.  Proved here: the hypothesis is satisfiable — the
-one-point rule `t = 0, w = √π` (= `hermgauss(1)`) is exact for every polynomial of degree `< 2`. -/
+/-- **gh_nodes_partial** — that the *ideal* `hermgauss(N)` (roots of `H_N`, irrational) satisfies
+`ExactOnHermiteWeight · (2N)` is not proved.  Proved here: the hypothesis is satisfiable — the one-point rule
+`t = 0, w = √π` (= `hermgauss(1)`) is exact for every polynomial of degree `< 2`.  Proved below, for the tables that are
+really shipped (float64 numbers, which can satisfy the equations only up to rounding): `exact_iff_moment_equations`
+(the `2N` moment equations characterise exactness, for ANY node table), `gh_residual_bound` (residuals `ε_k` of those
+equations bound the error on every polynomial of degree `< 2N` and every `N(m, v)`) and `moment_residual_certified`
+(the rational number the driver computes for the shipped table on every run is such an `ε_k`).  What remains external
+is a stated numeric bound on those certified residuals, not "numpy is right". -/
 theorem gh_nodes_partial : ExactOnHermiteWeight [(0, √π)] 2 := by
   intro p hp
   have hdeg : p.natDegree ≤ 1 := by omega
@@ -275,6 +280,146 @@ theorem one_rule_per_instance (pre post : List BuildOp) : ∀ s : ℕ,
 theorem softmax_logits {F W : Type} (mulT : F → W → F) (f : F) (w : W) :
     softmaxLogits mulT f (some w) = mulT f w ∧ softmaxLogits mulT f (none : Option W) = f := ⟨rfl, rfl⟩
 
+
+/-! ### the moment equations characterise the rule; residuals certified in `ℚ`
+
+`gh_nodes_partial` above leaves "numpy's `hermgauss(N)` is exact for degree `< 2N`" to the correspondence.  What is
+proved instead: **any** table `[(tᵢ, wᵢ)]` that satisfies the `D` moment equations `(1/√π)·Σ wᵢ tᵢᵏ = M_k(0,½)`, `k < D`,
+is exact (`exact_of_moment_equations`, hence `gh_exact_poly_of_moment_equations`); a table that satisfies them up to
+residuals `ε_k` integrates every polynomial of degree `< D` against every `N(m, v)` with error
+`≤ Σ_k |q_k|·ε_k` (`gh_residual_bound`); and for a table of rationals (every float64 is one) the number
+`momentResidualBound rule k` that the driver computes in `ℚ` *is* such an `ε_k` (`moment_residual_certified`).  So for
+the shipped float64 table nothing about numpy is assumed: the driver certifies the `2N` residuals on every run. -/
+
+/-- the table satisfies the `k`-th moment equation of the Hermite weight up to `eps k`, for `k < D` -/
+def MomentResiduals (rule : List (ℝ × ℝ)) (D : ℕ) (eps : ℕ → ℝ) : Prop :=
+  ∀ k < D, |ghApply rule (fun x => x ^ k) 0 (1 / 2) - gaussMoment (0 : ℝ) (1 / 2) k| ≤ eps k
+
+/-- against the Hermite weight: `|rule(p) − ∫ p dN(0,½)| ≤ Σ_{k<D} |p_k|·ε_k` for every polynomial of degree `< D` -/
+theorem gh_residual_bound_hermite (rule : List (ℝ × ℝ)) (D : ℕ) (eps : ℕ → ℝ) (H : MomentResiduals rule D eps)
+    (p : ℝ[X]) (hp : p.natDegree < D) :
+    |ghApply rule (fun x => p.eval x) 0 (1 / 2) - ∫ t, p.eval t ∂(gaussianReal 0 (1 / 2))| ≤
+      ∑ k ∈ Finset.range D, |p.coeff k| * eps k := by
+  have hev : (fun x : ℝ => p.eval x) = fun x => ∑ i ∈ Finset.range D, p.coeff i * x ^ i := by
+    funext x; exact eval_eq_sum_range' hp x
+  rw [hev, ghApply_finset_sum (Finset.range D) (fun i => p.coeff i) (fun i x => x ^ i), integral_sum_monomials,
+    ← Finset.sum_sub_distrib]
+  refine (Finset.abs_sum_le_sum_abs _ _).trans (Finset.sum_le_sum fun k hk => ?_)
+  rw [← mul_sub, abs_mul]
+  exact mul_le_mul_of_nonneg_left (H k (Finset.mem_range.mp hk)) (abs_nonneg _)
+
+/-- **gh_residual_bound** — a table that satisfies the moment equations up to `ε_k` integrates every polynomial of
+degree `< D` against every `N(m, v)`, `v ≥ 0`, with error at most `Σ_k |q_k|·ε_k`, `q = p(√(2v)·t + m)`. -/
+theorem gh_residual_bound (rule : List (ℝ × ℝ)) (D : ℕ) (eps : ℕ → ℝ) (H : MomentResiduals rule D eps)
+    (m : ℝ) (v : ℝ≥0) (p : ℝ[X]) (hp : p.natDegree < D) :
+    |ghApply rule (fun x => p.eval x) m v - ∫ x, p.eval x ∂(gaussianReal m v)| ≤
+      ∑ k ∈ Finset.range D, |(p.comp (C √(2 * (v : ℝ)) * X + C m)).coeff k| * eps k := by
+  rw [ghApply_affine, integral_affine]
+  exact gh_residual_bound_hermite rule D eps H _ (lt_of_le_of_lt (natDegree_comp_affine_le p _ m) hp)
+
+/-- **exact_of_moment_equations** — ANY node table that makes the rule exact on the monomials `1, t, …, t^{D−1}`
+against the Hermite weight is exact on every polynomial of degree `< D` (and conversely, `gh_exact_monomial`). -/
+theorem exact_of_moment_equations (rule : List (ℝ × ℝ)) (D : ℕ)
+    (H : ∀ k < D, ghApply rule (fun x => x ^ k) 0 (1 / 2) = gaussMoment (0 : ℝ) (1 / 2) k) :
+    ExactOnHermiteWeight rule D := by
+  intro p hp
+  have h := gh_residual_bound_hermite rule D (fun _ => 0) (fun k hk => by rw [H k hk]; simp) p hp
+  simp only [mul_zero, Finset.sum_const_zero] at h
+  exact sub_eq_zero.mp (abs_nonpos_iff.mp h)
+
+theorem exact_iff_moment_equations (rule : List (ℝ × ℝ)) (D : ℕ) :
+    ExactOnHermiteWeight rule D ↔
+      ∀ k < D, ghApply rule (fun x => x ^ k) 0 (1 / 2) = gaussMoment (0 : ℝ) (1 / 2) k := by
+  refine ⟨fun H k hk => ?_, exact_of_moment_equations rule D⟩
+  have := gh_exact_monomial rule D H 0 (1 / 2) k hk
+  simpa using this
+
+/-- **gh_exact_poly_of_moment_equations** — the equality the correspondence tests, from the `D` moment equations alone -/
+theorem gh_exact_poly_of_moment_equations (rule : List (ℝ × ℝ)) (D : ℕ) (hD : 0 < D)
+    (H : ∀ k < D, ghApply rule (fun x => x ^ k) 0 (1 / 2) = gaussMoment (0 : ℝ) (1 / 2) k)
+    (m : ℝ) (v : ℝ≥0) (cs : List ℝ) (hlen : cs.length ≤ D) :
+    ghApply rule (polyEval cs) m v = polyExpect cs m (v : ℝ) :=
+  gh_exact_poly rule D hD (exact_of_moment_equations rule D H) m v cs hlen
+
+/-- **moment_residual_certified** — for a table of rationals the number the driver computes in `ℚ`
+(`momentResidualBound`, using only the certified enclosure of `1/√π`) bounds the residual of the `k`-th moment equation
+of the table read in `ℝ`; for every table and every `k`. -/
+theorem moment_residual_certified (rule : List (ℚ × ℚ)) (k : ℕ) :
+    |ghApply (castRule rule) (fun x => x ^ k) 0 (1 / 2) - gaussMoment (0 : ℝ) (1 / 2) k| ≤
+      ((momentResidualBound rule k : ℚ) : ℝ) := by
+  rw [ghApply_monomial_hermite]
+  simp only [momentResidualBound, cast_ratMax, cast_ratAbs, Rat.cast_sub, Rat.cast_mul, cast_momentSum,
+    cast_gaussMomentFast]
+  have h0 : (((0 : ℚ)) : ℝ) = 0 := Rat.cast_zero
+  have h2 : (((1 / 2 : ℚ)) : ℝ) = 1 / 2 := by norm_num
+  rw [h0, h2]
+  exact abs_affine_le_max invSqrtPi_mem.1 invSqrtPi_mem.2
+
+/-- **gh_certified_error** — the shipped table (rationals) integrates every polynomial of degree `< D` against every
+`N(m, v)` with error at most `Σ_{k<D} |q_k|·momentResidualBound rule k`: no assumption about the table is left. -/
+theorem gh_certified_error (rule : List (ℚ × ℚ)) (D : ℕ) (m : ℝ) (v : ℝ≥0) (p : ℝ[X]) (hp : p.natDegree < D) :
+    |ghApply (castRule rule) (fun x => p.eval x) m v - ∫ x, p.eval x ∂(gaussianReal m v)| ≤
+      ∑ k ∈ Finset.range D,
+        |(p.comp (C √(2 * (v : ℝ)) * X + C m)).coeff k| * ((momentResidualBound rule k : ℚ) : ℝ) :=
+  gh_residual_bound (castRule rule) D _ (fun k _ => moment_residual_certified rule k) m v p hp
+
+/-! ### calls leave the objects alone (facts about the regenerated code) -/
+
+/-- `GaussHermiteQuadrature1D.forward` contains no write to the rule object (no assignment to / in-place operation on /
+registration of an attribute of `self`, no memoising decorator): the node table a later call uses is the one the
+constructor stored. -/
+theorem ghq_forward_pure : ghqForwardStateWrites = 0 := by decide
+
+/-- no call method (`__call__`, `forward`, `marginal`, `log_marginal`, `expected_log_prob`) of `_OneDimensionalLikelihood`,
+Bernoulli, Laplace, Student-t, Beta likelihoods writes instance state -/
+theorem likelihood_calls_pure : ∀ n ∈ likelihoodCallStateWrites, n = 0 := by decide
+
+/-- **bernoulli_label_map** — the `{0,1} → {−1,+1}` map of `expected_log_prob` is selected by the observations of the
+current call only (generated path condition), and both accepted encodings yield the class sign: `{0,1}` labels
+(no `−1` present) give `2y−1`, `{−1,1}` labels are used as they are — also when the batch happens to contain no `−1`. -/
+theorem bernoulli_label_map : bernoulliLabelGuardIsCurrentInput = true ∧
+    (∀ y : ℝ, (y = 0 ∨ y = 1) → bernoulliLabelMap false y = if y = 1 then 1 else -1) ∧
+    (∀ (anyNeg : Bool) (y : ℝ), (y = -1 ∨ y = 1) → (y = -1 → anyNeg = true) → bernoulliLabelMap anyNeg y = y) := by
+  refine ⟨by decide, ?_, ?_⟩
+  · rintro y (rfl | rfl)
+    · simp [bernoulliLabelMap, bernoulliSign]
+    · simp [bernoulliLabelMap, bernoulliSign]; norm_num
+  · rintro anyNeg y (rfl | rfl) h
+    · simp [bernoulliLabelMap, h rfl]
+    · cases anyNeg
+      · simp [bernoulliLabelMap, bernoulliSign]; norm_num
+      · simp [bernoulliLabelMap]
+
+section backward
+set_option linter.unusedSectionVars false
+variable {α : Type} [Add α] [Sub α] [Mul α] [Div α] [Neg α] [NatCast α] [OfScientific α] [TransFn α]
+
+/-- `LogNormalCDF.forward` leaves its input tensor as it was (in-place operations only touch fresh tensors) -/
+theorem lncdf_forward_input_untouched (z : α) : lncdfForwardInputAfter z = z := rfl
+
+/-- **lncdf_backward_pure** — one pass of `LogNormalCDF.backward` leaves the saved tensors `z`, `log_phi_z`, the stashed
+`ctx.numerator` / `ctx.denominator` and `grad_output` as they were (regenerated with in-place operations followed
+through every alias) … -/
+theorem lncdf_backward_pure (z logPhi num den g : α) :
+    lncdfBackwardStateAfter z logPhi num den g = (z, logPhi, num, den, g) := rfl
+
+/-- … hence **every** backward pass through one graph (`retain_graph=True`) returns what the first one returns. -/
+theorem lncdf_backward_repeatable [LT α] [DecidableLT α] (k : ℕ) (z logPhi num den : α) :
+    lncdfBackwardNth k z logPhi num den = lncdfBackwardNth 0 z logPhi num den := by
+  induction k with
+  | zero => rfl
+  | succ k ih => simpa only [lncdfBackwardNth, lncdf_backward_pure] using ih
+
+end backward
+
+/-- every backward pass on the small branch returns `φ(z)/Φ(z)` (hypotheses of `lncdf_small_branch_derivative`) -/
+theorem lncdf_backward_nth_small (k : ℕ) (z Φz : ℝ) (hz : z < -1) (hΦ : Real.log Φz = lncdfSmall z) (hΦpos : 0 < Φz) :
+    lncdfBackwardNth k z (lncdfSmall z) (lncdfSmallNum z) (lncdfSmallDen z) = stdNormalPdf z / Φz := by
+  obtain ⟨hn, hd⟩ := lncdf_small_num_den_pos z (by linarith)
+  rw [lncdf_backward_repeatable, ← lncdf_small_branch_derivative z Φz hn hd hΦ hΦpos]
+  have : lncdfBackwardSmallMask z := by simpa [lncdfBackwardSmallMask] using hz
+  simp [lncdfBackwardNth, this]
+
 /-! ### the hypotheses are satisfiable -/
 
 example : ∃ rule : List (ℝ × ℝ), ExactOnHermiteWeight rule 2 := ⟨_, gh_nodes_partial⟩
@@ -283,5 +428,10 @@ example (z : ℝ) (hz : z < -1) : ∃ Φz : ℝ, 0 < Φz ∧ Real.log Φz = lncd
     0 < lncdfSmallNum z ∧ 0 < lncdfSmallDen z :=
   ⟨Real.exp (lncdfSmall z), Real.exp_pos _, Real.log_exp _, lncdf_small_num_den_pos z (by linarith)⟩
 example : lncdfOrdinaryMask (1 : ℝ) := by simp only [lncdfOrdinaryMask]; norm_num
+example : MomentResiduals [(0, √π)] 2 (fun _ => 0) := fun k hk => by
+  rw [(exact_iff_moment_equations _ 2).mp gh_nodes_partial k hk]; simp
+example : ∀ k < 2, ghApply [(0, √π)] (fun x => x ^ k) 0 (1 / 2) = gaussMoment (0 : ℝ) (1 / 2) k :=
+  (exact_iff_moment_equations _ 2).mp gh_nodes_partial
+example : momentResidualBound [(0, 2)] 1 = 0 := by decide +kernel
 
 end C13
